@@ -832,7 +832,8 @@ static void bn_gcd_ext_binar_imp(bn_t c, bn_t d, bn_t e, const bn_t a,
 		bn_div(y, y, u);
 		bn_hlv(_a, x);
 		bn_hlv(_b, y);
-		while (bn_cmp_abs(d, _b) == RLC_GT || bn_cmp_abs(_e, _a) == RLC_GT) {
+		while (!bn_is_zero(_b) && (bn_cmp_abs(d, _b) == RLC_GT ||
+				bn_cmp_abs(_e, _a) == RLC_GT)) {
 			bn_div(t, d, _b);
 			if (bn_bits(t) > 1) {
 				bn_hlv(t, t);
